@@ -147,6 +147,20 @@ pub enum M {
     GovVote,
     Stargate,
     Custom,
+    /// WasmMsg::Execute addressed to the proxy itself (only meaningful when relayed messages are
+    /// dispatched): the inner call runs with the proxy's own address as sender
+    SelfCall(Inner),
+}
+
+/// what a self-addressed message asks the proxy to do
+#[derive(Clone, Debug, Serialize, Deserialize, PartialEq, Eq, Hash, PartialOrd, Ord)]
+pub enum Inner {
+    UpdateAdmins(Vec<u8>),
+    Freeze,
+    Inc { spender: u8, denom: u8, amt: Amt },
+    SetPerm { spender: u8, flags: u8 },
+    /// a nested Execute (its messages are relayed once more)
+    Exec(Vec<M>),
 }
 
 impl M {
@@ -165,6 +179,11 @@ impl M {
             M::GovVote => "gov-vote",
             M::Stargate => "stargate",
             M::Custom => "custom",
+            M::SelfCall(Inner::UpdateAdmins(_)) => "self:update-admins",
+            M::SelfCall(Inner::Freeze) => "self:freeze",
+            M::SelfCall(Inner::Inc { .. }) => "self:increase-allowance",
+            M::SelfCall(Inner::SetPerm { .. }) => "self:set-permissions",
+            M::SelfCall(Inner::Exec(_)) => "self:execute",
         }
     }
 }
@@ -178,8 +197,37 @@ fn coins_of(v: &[(u8, Amt)]) -> Vec<Coin> {
         .collect()
 }
 
-pub fn to_cosmos(m: &M) -> CosmosMsg {
+pub fn inner_msg(actors: &[&'static str], i: &Inner) -> ExecuteMsg {
+    let addr = |k: &u8| addr_cached(actors[*k as usize]);
+    match i {
+        Inner::UpdateAdmins(l) => ExecuteMsg::UpdateAdmins { admins: l.iter().map(addr).collect() },
+        Inner::Freeze => ExecuteMsg::Freeze {},
+        Inner::Inc { spender, denom, amt } => ExecuteMsg::IncreaseAllowance {
+            spender: addr(spender),
+            amount: Coin {
+                denom: DENOMS[*denom as usize].into(),
+                amount: Uint128::new(amt.0),
+            },
+            expires: None,
+        },
+        Inner::SetPerm { spender, flags } => ExecuteMsg::SetPermissions {
+            spender: addr(spender),
+            permissions: perms_of(*flags),
+        },
+        Inner::Exec(msgs) => ExecuteMsg::Execute {
+            msgs: msgs.iter().map(|m| to_cosmos(actors, m)).collect(),
+        },
+    }
+}
+
+pub fn to_cosmos(actors: &[&'static str], m: &M) -> CosmosMsg {
     match m {
+        M::SelfCall(i) => WasmMsg::Execute {
+            contract_addr: proxy_addr(),
+            msg: cosmwasm_std::to_json_binary(&inner_msg(actors, i)).unwrap(),
+            funds: vec![],
+        }
+        .into(),
         M::Send(v) => BankMsg::Send {
             to_address: addr_cached("dest"),
             amount: coins_of(v),
@@ -294,6 +342,9 @@ pub struct Cfg {
     pub probe_msgs: Vec<M>,
     /// track cumulative granted / relayed per (subkey, denom): history in the state, depth-bounded runs only
     pub monitors: bool,
+    /// true: the kernel dispatches what the proxy relays (messages to the proxy itself are
+    /// executed with the proxy as sender); false: relayed messages are only observed
+    pub dispatch: bool,
 }
 
 impl Cfg {
@@ -322,6 +373,7 @@ impl Cfg {
             probe_senders: vec![],
             probe_msgs: vec![],
             monitors: false,
+            dispatch: false,
         }
     }
     pub fn addr(&self, i: u8) -> String {
@@ -390,6 +442,25 @@ pub struct State {
 
 pub struct Cw1Model {
     pub cfg: Cfg,
+}
+
+/// kind of a grant call
+#[derive(Clone, Copy, Debug, PartialEq, Eq)]
+pub enum GK {
+    Inc,
+    Dec,
+    Perm,
+}
+
+/// what the dispatched self-addressed messages of one Execute amounted to
+#[derive(Default)]
+pub struct InnerOutcome {
+    /// relayed UpdateAdmins / Freeze calls
+    pub admin_ops: u32,
+    /// first relayed admin-list change the proxy's own address was not entitled to
+    pub forbidden: Option<String>,
+    /// relayed grant calls: (subkey named, the proxy's address was a current admin, kind)
+    pub grants: Vec<(u8, bool, GK)>,
 }
 
 pub fn perms_of(flags: u8) -> Permissions {
@@ -662,26 +733,161 @@ impl Cw1Model {
             Act::Exec { by, msgs } => (
                 *by,
                 ExecuteMsg::Execute {
-                    msgs: msgs.iter().map(to_cosmos).collect(),
+                    msgs: msgs.iter().map(|m| to_cosmos(&cfg.actors, m)).collect(),
                 },
             ),
             Act::Probe { .. } | Act::Advance => return None,
         })
     }
 
-    /// C08 / C17 transition predicates on what the queries showed before and after an accepted call
-    fn delta_checks(&self, a: &Act, rpre: &Ref, pre: &Obs, post: &Obs, v: &mut Vec<Violation>) {
+    /// the reference's reading of an accepted IncreaseAllowance
+    #[allow(clippy::too_many_arguments)]
+    fn ref_increase(&self, r: &mut Ref, spender: u8, denom: u8, amt: u128, given: Option<ExpKey>, h: u64, t: u64, obs: &Obs, desc: &str, v: &mut Vec<Violation>) {
+        let shown_allow = obs.allow.get(spender as usize).cloned().unwrap_or((Amounts::new(), ExpKey::Never));
+        let cur = r.allow.get(&spender).cloned();
+        let (na, ne) = match cur {
+            None => {
+                let mut m = Amounts::new();
+                m.insert(denom, amt);
+                (m, given.unwrap_or(ExpKey::Never))
+            }
+            Some((mut m, e0)) if !e0.expired(h, t) => {
+                let was_empty = m.is_empty();
+                let c = m.get(&denom).copied().unwrap_or(0);
+                match c.checked_add(amt) {
+                    Some(n) => {
+                        m.insert(denom, n);
+                    }
+                    None => {
+                        v.push(Violation::new("C08.allowance_overflow_accepted", format!("{desc} accepted on top of {c}")));
+                        m.insert(denom, u128::MAX);
+                    }
+                }
+                let mut e = given.unwrap_or(e0);
+                // an allowance with nothing left may or may not have been kept as an entry:
+                // without a new expiry the increase keeps the old one or starts at "never"
+                if given.is_none() && was_empty && shown_allow.1 == ExpKey::Never {
+                    e = ExpKey::Never;
+                }
+                (m, e)
+            }
+            Some((m, e0)) => {
+                // increase on an expired allowance: restart from zero or accumulate, the
+                // property does not say; follow what the queries show
+                let mut restart = Amounts::new();
+                restart.insert(denom, amt);
+                let mut accum = m.clone();
+                let c = accum.get(&denom).copied().unwrap_or(0);
+                accum.insert(denom, c.saturating_add(amt));
+                let mut shown = shown_allow.0.clone();
+                shown.retain(|_, x| *x != 0);
+                let mut acc_n = accum.clone();
+                acc_n.retain(|_, x| *x != 0);
+                let chosen = if shown == acc_n { accum } else { restart };
+                (chosen, given.unwrap_or(e0))
+            }
+        };
+        if ne.expired(h, t) {
+            v.push(Violation::new(
+                "C08.increase_expiry_in_future",
+                format!("{desc} accepted at height {h} time {t}: the allowance would carry the reached expiry {:?}", ne),
+            ));
+        }
+        let mut na = na;
+        na.retain(|_, x| *x != 0);
+        r.allow.insert(spender, (na, ne));
+    }
+
+    /// index of the actor whose address is the proxy's own (present in the dispatching configurations)
+    fn proxy_idx(&self) -> Option<u8> {
+        self.cfg.actors.iter().position(|l| *l == "proxy").map(|i| i as u8)
+    }
+
+    /// A self-addressed message was relayed and executed (the whole transaction committed, so the
+    /// inner call was accepted): its sender is the proxy's own address, which has exactly the
+    /// rights the admin list gives that address. The reference follows; `io` records what the
+    /// inner calls were entitled to.
+    #[allow(clippy::too_many_arguments)]
+    fn apply_inner(&self, r: &mut Ref, i: &Inner, h: u64, t: u64, obs: &Obs, io: &mut InnerOutcome, v: &mut Vec<Violation>) {
+        let cfg = &self.cfg;
+        let p = self.proxy_idx();
+        let p_admin = p.map(|p| r.is_admin(p)).unwrap_or(false);
+        let standing = format!(
+            "the proxy's own address is {} and the contract is {}",
+            if p_admin { "a current admin" } else { "not an admin" },
+            if r.mutable { "mutable" } else { "frozen" }
+        );
+        match i {
+            Inner::UpdateAdmins(list) => {
+                io.admin_ops += 1;
+                let before: BTreeSet<u8> = r.admins.iter().copied().collect();
+                let after: BTreeSet<u8> = list.iter().copied().collect();
+                if before != after && !(r.mutable && p_admin) && io.forbidden.is_none() {
+                    io.forbidden = Some(format!("relayed UpdateAdmins{:?} took effect although {standing}", list.iter().map(|k| cfg.label(*k)).collect::<Vec<_>>()));
+                }
+                r.admins = list.clone();
+            }
+            Inner::Freeze => {
+                io.admin_ops += 1;
+                if r.mutable && !p_admin && io.forbidden.is_none() {
+                    io.forbidden = Some(format!("relayed Freeze took effect although {standing}"));
+                }
+                r.mutable = false;
+            }
+            Inner::Inc { spender, denom, amt } => {
+                io.grants.push((*spender, p_admin, GK::Inc));
+                self.ref_increase(r, *spender, *denom, amt.0, None, h, t, obs, &format!("relayed {i:?}"), v);
+            }
+            Inner::SetPerm { spender, flags } => {
+                io.grants.push((*spender, p_admin, GK::Perm));
+                r.perms.insert(*spender, *flags);
+            }
+            Inner::Exec(msgs) => {
+                let why = match p {
+                    Some(p) => not_covered(cfg.kind, r, p, msgs, h, t),
+                    None => Some(("not_admin", "the proxy's own address holds no rights".to_string())),
+                };
+                if let Some((why, detail)) = why {
+                    v.push(Violation::new(
+                        "C07.accepted_only_if_covered",
+                        format!("nested Execute sent by the proxy to itself with {:?} accepted at height {h} time {t} but {detail} [{why}]", msgs),
+                    ));
+                }
+                for m in msgs {
+                    if let M::SelfCall(inner) = m {
+                        self.apply_inner(r, inner, h, t, obs, io, v);
+                    }
+                }
+            }
+        }
+    }
+
+    /// C08 / C17 transition predicates on what the queries showed before and after an accepted call.
+    /// `grants`: the grant calls contained in the step as (subkey named, sender was a current admin, kind).
+    fn delta_checks(&self, a: &Act, rpre: &Ref, grants: &[(u8, bool, GK)], pre: &Obs, post: &Obs, v: &mut Vec<Violation>) {
         let cfg = &self.cfg;
         if cfg.kind == Kind::Whitelist {
             return;
         }
-        let (actor, target): (u8, Option<u8>) = match a {
-            Act::Inc { by, spender, .. } | Act::Dec { by, spender, .. } | Act::SetPerm { by, spender, .. } => (*by, Some(*spender)),
-            Act::Exec { by, .. } | Act::UpdateAdmins { by, .. } | Act::Freeze { by } => (*by, None),
+        let actor: u8 = match a {
+            Act::Inc { by, .. } | Act::Dec { by, .. } | Act::SetPerm { by, .. } | Act::Exec { by, .. } | Act::UpdateAdmins { by, .. } | Act::Freeze { by } => *by,
             Act::Probe { .. } | Act::Advance => return,
         };
         let by_admin = rpre.is_admin(actor);
-        let who = format!("{} ({})", cfg.label(actor), if by_admin { "admin" } else { "not an admin" });
+        // the calls that may alter grants: the action itself, or - for an Execute whose relayed
+        // messages were dispatched - the inner calls, whose sender is the proxy's own address
+        let is_exec = matches!(a, Act::Exec { .. });
+        let admin_sender = if is_exec { grants.iter().any(|g| g.1) } else { by_admin };
+        let who = format!(
+            "{} ({}){}",
+            cfg.label(actor),
+            if by_admin { "admin" } else { "not an admin" },
+            if is_exec && !grants.is_empty() {
+                format!("; relayed grant calls (subkey, sender is admin, kind): {:?}", grants.iter().map(|g| (cfg.label(g.0), g.1, g.2)).collect::<Vec<_>>())
+            } else {
+                String::new()
+            }
+        );
         for k in 0..cfg.actors.len() as u8 {
             let (pa, pe) = &pre.allow[k as usize];
             let (qa, qe) = &post.allow[k as usize];
@@ -693,8 +899,7 @@ impl Cw1Model {
             if !(rose || fell || redated || perm_changed) {
                 continue;
             }
-            let is_target = target == Some(k);
-            let own_spend = matches!(a, Act::Exec { .. }) && actor == k;
+            let own_spend = is_exec && actor == k;
             let what = format!(
                 "{}: allowance {} {:?} -> {} {:?}, permission flags {} -> {} in {:?} by {}",
                 cfg.label(k),
@@ -709,24 +914,24 @@ impl Cw1Model {
             );
             // C08: a subkey's allowance and permissions move only by an admin's call naming it, or
             // (allowance, downwards) by its own spending; never through anybody else's activity
-            let by_grant = is_target && by_admin;
+            let by_grant = grants.iter().any(|g| g.0 == k && g.1);
             let by_own_spending = own_spend && !rose && !redated && !perm_changed;
             if !by_grant && !by_own_spending {
                 v.push(Violation::new("C08.changed_only_by_admin_grant_or_own_spending", what.clone()));
             }
-            if rose && !(matches!(a, Act::Inc { .. }) && is_target && by_admin) {
+            if rose && !grants.iter().any(|g| g.0 == k && g.1 && g.2 == GK::Inc) {
                 v.push(Violation::new("C08.allowance_rises_only_by_admin_increase", what.clone()));
             }
-            if fell && !(own_spend || (matches!(a, Act::Dec { .. }) && is_target && by_admin)) {
+            if fell && !(own_spend || grants.iter().any(|g| g.0 == k && g.1 && g.2 == GK::Dec)) {
                 v.push(Violation::new("C08.allowance_falls_only_by_admin_decrease_or_own_spending", what.clone()));
             }
-            if (rose || redated) && !by_admin {
+            if (rose || redated) && !admin_sender {
                 v.push(Violation::new("C17.allowance_created_or_raised_only_by_admin", what.clone()));
             }
-            if fell && !own_spend && !by_admin {
+            if fell && !own_spend && !admin_sender {
                 v.push(Violation::new("C17.allowance_altered_only_by_admin", what.clone()));
             }
-            if perm_changed && !by_admin {
+            if perm_changed && !admin_sender {
                 v.push(Violation::new("C17.permissions_set_only_by_admin", what.clone()));
             }
         }
@@ -735,6 +940,17 @@ impl Cw1Model {
     fn filter(&self, v: &mut Vec<Violation>) {
         let p = format!("{}.", self.cfg.prop);
         v.retain(|x| x.clause.starts_with(&p));
+    }
+}
+
+/// every IncreaseAllowance contained in self-addressed messages of a list, at any nesting depth
+fn inner_incs(l: &[M], out: &mut Vec<(u8, u8, u128)>) {
+    for m in l {
+        match m {
+            M::SelfCall(Inner::Inc { spender, denom, amt }) => out.push((*spender, *denom, amt.0)),
+            M::SelfCall(Inner::Exec(inner)) => inner_incs(inner, out),
+            _ => {}
+        }
     }
 }
 
@@ -768,7 +984,7 @@ impl Model for Cw1Model {
         let mut w = World::new();
         w.height = H0;
         w.time_s = T0;
-        w.dispatch = false;
+        w.dispatch = cfg.dispatch;
         let msg = InstantiateMsg {
             admins: cfg.init_admins.iter().map(|i| cfg.addr(*i)).collect(),
             mutable: cfg.init_mutable,
@@ -857,7 +1073,24 @@ impl Model for Cw1Model {
             }
         }
         for &by in &cfg.exec_callers {
-            for l in &cfg.exec_lists {
+            'lists: for l in &cfg.exec_lists {
+                if cfg.dispatch {
+                    // relayed increases obey the same grant cap as direct ones (closes the system)
+                    let mut incs: Vec<(u8, u8, u128)> = vec![];
+                    inner_incs(l, &mut incs);
+                    let mut total: BTreeMap<(u8, u8), u128> = BTreeMap::new();
+                    for (sp, d, a) in incs {
+                        let e = total.entry((sp, d)).or_insert(0);
+                        *e = e.saturating_add(a);
+                    }
+                    for ((sp, d), a) in total {
+                        let cap = cfg.targets.iter().find(|t| t.spender == sp).and_then(|t| t.cap).unwrap_or(1);
+                        let cur = s.r.allow.get(&sp).and_then(|(m, _)| m.get(&d).copied()).unwrap_or(0);
+                        if cur.checked_add(a).map(|x| x > cap).unwrap_or(true) {
+                            continue 'lists;
+                        }
+                    }
+                }
                 out.push(Act::Exec { by, msgs: l.clone() });
             }
         }
@@ -900,7 +1133,7 @@ impl Model for Cw1Model {
                 };
             }
             Act::Probe { sender, msg } => {
-                let cm = to_cosmos(msg);
+                let cm = to_cosmos(&cfg.actors, msg);
                 let said: Result<CanExecuteResponse, String> = self.q(
                     &s.w,
                     &QueryMsg::CanExecute {
@@ -971,6 +1204,13 @@ impl Model for Cw1Model {
         let mut r = s.r.clone();
         let by_admin = rpre.is_admin(by);
         let relayed = out.top.as_ref().map(|x| x.messages.clone()).unwrap_or_default();
+        let mut io = InnerOutcome::default();
+        match a {
+            Act::Inc { spender, .. } => io.grants.push((*spender, by_admin, GK::Inc)),
+            Act::Dec { spender, .. } => io.grants.push((*spender, by_admin, GK::Dec)),
+            Act::SetPerm { spender, .. } => io.grants.push((*spender, by_admin, GK::Perm)),
+            _ => {}
+        }
         match a {
             Act::UpdateAdmins { admins, .. } => {
                 r.admins = admins.clone();
@@ -987,59 +1227,7 @@ impl Model for Cw1Model {
                 r.mutable = false;
             }
             Act::Inc { spender, denom, amt, exp, .. } => {
-                let given = exp.to_key();
-                let cur = rpre.allow.get(spender).cloned();
-                let (na, ne) = match cur {
-                    None => {
-                        let mut m = Amounts::new();
-                        m.insert(*denom, amt.0);
-                        (m, given.unwrap_or(ExpKey::Never))
-                    }
-                    Some((mut m, e0)) if !e0.expired(h, t) => {
-                        let was_empty = m.is_empty();
-                        let c = m.get(denom).copied().unwrap_or(0);
-                        match c.checked_add(amt.0) {
-                            Some(n) => {
-                                m.insert(*denom, n);
-                            }
-                            None => {
-                                v.push(Violation::new("C08.allowance_overflow_accepted", format!("{a:?} accepted on top of {c}")));
-                                m.insert(*denom, u128::MAX);
-                            }
-                        }
-                        let mut e = given.unwrap_or(e0);
-                        // an allowance with nothing left may or may not have been kept as an entry:
-                        // without a new expiry the increase keeps the old one or starts at "never"
-                        if given.is_none() && was_empty && obs.allow[*spender as usize].1 == ExpKey::Never {
-                            e = ExpKey::Never;
-                        }
-                        (m, e)
-                    }
-                    Some((m, e0)) => {
-                        // increase on an expired allowance: restart from zero or accumulate, the
-                        // property does not say; follow what the queries show
-                        let mut restart = Amounts::new();
-                        restart.insert(*denom, amt.0);
-                        let mut accum = m.clone();
-                        let c = accum.get(denom).copied().unwrap_or(0);
-                        accum.insert(*denom, c.saturating_add(amt.0));
-                        let mut shown = obs.allow[*spender as usize].0.clone();
-                        shown.retain(|_, x| *x != 0);
-                        let mut acc_n = accum.clone();
-                        acc_n.retain(|_, x| *x != 0);
-                        let chosen = if shown == acc_n { accum } else { restart };
-                        (chosen, given.unwrap_or(e0))
-                    }
-                };
-                if ne.expired(h, t) {
-                    v.push(Violation::new(
-                        "C08.increase_expiry_in_future",
-                        format!("{a:?} accepted at height {h} time {t}: the allowance would carry the reached expiry {:?}", ne),
-                    ));
-                }
-                let mut na = na;
-                na.retain(|_, x| *x != 0);
-                r.allow.insert(*spender, (na, ne));
+                self.ref_increase(&mut r, *spender, *denom, amt.0, exp.to_key(), h, t, &obs, &format!("{a:?}"), &mut v);
                 if cfg.monitors && by_admin {
                     let g = r.granted.entry((*spender, *denom)).or_insert(0);
                     *g = g.saturating_add(amt.0);
@@ -1070,7 +1258,7 @@ impl Model for Cw1Model {
             }
             Act::Exec { msgs, .. } => {
                 // C07: relayed == submitted, in order, fire-and-forget, nothing added
-                let sent: Vec<CosmosMsg> = msgs.iter().map(to_cosmos).collect();
+                let sent: Vec<CosmosMsg> = msgs.iter().map(|m| to_cosmos(&cfg.actors, m)).collect();
                 let exact = relayed.len() == sent.len()
                     && relayed
                         .iter()
@@ -1124,6 +1312,14 @@ impl Model for Cw1Model {
             }
             Act::Probe { .. } | Act::Advance => unreachable!(),
         }
+        if let (true, Act::Exec { msgs, .. }) = (cfg.dispatch, a) {
+            // the relayed messages were executed: follow the self-addressed ones
+            for m in msgs {
+                if let M::SelfCall(inner) = m {
+                    self.apply_inner(&mut r, inner, h, t, &obs, &mut io, &mut v);
+                }
+            }
+        }
         if !matches!(a, Act::Exec { .. }) && !relayed.is_empty() {
             v.push(Violation::new("C07.nothing_relayed_outside_execute", format!("{a:?} emitted {} messages", relayed.len())));
         }
@@ -1132,13 +1328,16 @@ impl Model for Cw1Model {
             let legit = match a {
                 Act::UpdateAdmins { .. } => rpre.mutable && by_admin && obs.mutable == pre.mutable,
                 Act::Freeze { .. } => rpre.mutable && by_admin && obs.admins == pre.admins && !obs.mutable,
+                // relayed to the proxy itself: every change must have been within the rights of the proxy's own address
+                Act::Exec { .. } => cfg.dispatch && io.admin_ops > 0 && io.forbidden.is_none(),
                 _ => false,
             };
             if !legit {
                 v.push(Violation::new(
                     "C17.admin_list_changes_only_by_admin_while_mutable",
                     format!(
-                        "{a:?} by {} ({}, contract {}): AdminList {:?} mutable={} -> {:?} mutable={}",
+                        "{a:?}{} by {} ({}, contract {}): AdminList {:?} mutable={} -> {:?} mutable={}",
+                        io.forbidden.as_ref().map(|f| format!(" [{f}]")).unwrap_or_default(),
                         cfg.label(by),
                         if by_admin { "admin" } else { "not an admin" },
                         if rpre.mutable { "mutable" } else { "frozen" },
@@ -1151,7 +1350,7 @@ impl Model for Cw1Model {
             }
         }
         if !store_same {
-            self.delta_checks(a, rpre, pre, &obs, &mut v);
+            self.delta_checks(a, rpre, &io.grants, pre, &obs, &mut v);
         }
         self.check_state(h, t, &r, &obs, &mut v);
         self.filter(&mut v);
